@@ -442,8 +442,9 @@ def bern_tp_case(mode, u1, u2, dt2, n, tabseed, ul=None):
     base = np.round(np.random.default_rng(tabseed).random(n) * 0.6 + 0.01, 3)
     user = base.copy()
     slots = np.arange(n); tr = 'btp_%d' % tabseed
+    cur = dict(tab=user)      # what the callable reads: it changes between calls (a probability that follows the simulation state)
     if mode == 'callable':
-        tp = ss.time_prob(lambda m, s, u: user, unit=u1, parent_unit=u2, parent_dt=dt2)
+        tp = ss.time_prob(lambda m, s, u: cur['tab'] if u is None else cur['tab'][np.asarray(u, dtype=int)], unit=u1, parent_unit=u2, parent_dt=dt2)
         tp.init(update_values=False)
     else:
         tp = ss.time_prob(user, unit=u1, parent_unit=u2, parent_dt=dt2)
@@ -451,17 +452,26 @@ def bern_tp_case(mode, u1, u2, dt2, n, tabseed, ul=None):
         else: tp.init(update_values=False)
     b = ss.bernoulli(p=tp); b.init(trace=tr, seed=2, sim=c03.Sim0(slots), slots=slots)
     r = ss.random(); r.init(trace=tr, seed=2, sim=c03.Sim0(slots), slots=slots)
-    uids = ss.uids(np.arange(n))
-    want_p = 1 - np.exp(np.log(1 - base) / factor)
-    for call in range(1, 4):
+    sub = np.random.default_rng(tabseed + 1)
+    for call in range(1, 5):
         b.jump_dt(ti=call); r.jump_dt(ti=call)
+        if mode == 'callable':
+            # another group of agents on every call (other sizes too), and other probabilities
+            sel = np.sort(sub.choice(n, size=int(sub.integers(1, n + 1)), replace=False)) if call > 2 else np.arange(n)   # call 2: same agents, other probabilities
+            tab = np.round(np.clip(base * (1.0 if call == 1 else sub.uniform(0.2, 1.5)), 0.001, 0.95), 4); cur['tab'] = tab
+        else:
+            sel = np.arange(n); tab = base       # (per-agent arrays are given for exactly the agents requested)
+        uids = ss.uids(sel)
+        want_p = 1 - np.exp(np.log(1 - tab[sel]) / factor)
         got = np.asarray(b.rvs(uids), dtype=bool)
         u = np.asarray(r.rvs(uids), dtype=float)
         exp = u < want_p
         care = np.abs(u - want_p) > 1e-7
+        if len(got) != len(sel):
+            return (f'ss.bernoulli(p=ss.time_prob({mode}, unit={u1!r})), call {call}: {len(got)} values for {len(sel)} agents'), dict(oracle='bernoulli-timeprob', mode=mode)
         if np.any((got != exp) & care):
             i = int(np.flatnonzero((got != exp) & care)[0])
-            return (f'ss.bernoulli(p=ss.time_prob({mode}, unit={u1!r}) in {u2!r} steps of {dt2}), call {call}: agent {i} with p={base[i]} '
+            return (f'ss.bernoulli(p=ss.time_prob({mode}, unit={u1!r}) in {u2!r} steps of {dt2}), call {call}: agent {int(sel[i])} with p={tab[sel][i]} '
                     f'(per-step {want_p[i]:.6g}) and uniform draw {u[i]:.6g} was {"selected" if got[i] else "not selected"}'), dict(oracle='bernoulli-timeprob', mode=mode)
     if not np.array_equal(user, base):
         return (f'the probability array passed to ss.time_prob ({mode}) was modified in place by sampling: {user[:4]} vs {base[:4]}',
@@ -482,7 +492,10 @@ def correspond_bernoulli_timeprob(ctx):
         try:
             msg, sig = bern_tp_case(ul=ul, **args)
         except Exception as e:
-            ctx.broke('correspondence', 'C05.bernoulli-timeprob', f"{args['mode']} time_prob in bernoulli raised {type(e).__name__}: {e}"); return
+            # a valid request (a documented parameter form, agents that exist) that cannot be sampled at all
+            msg = f"ss.bernoulli(p=ss.time_prob({args['mode']})) drawn on consecutive steps for changing groups of agents raised {type(e).__name__}: {e}"
+            ctx.broke('correspondence', 'C05.bernoulli-timeprob', msg)
+            ctx.fail(dict(oracle='bernoulli-timeprob', mode=args['mode'], raises=True), msg, dict(kind='bern_tp', **args)); return
         ctx.case(('bern-timeprob',) + tuple(args.values()), True, sample=dict(kind='bernoulli-time_prob', **args))
         if msg:
             ctx.broke('correspondence', 'C05.bernoulli-timeprob', msg)
@@ -716,7 +729,8 @@ def replay(ctx, data):
     if k == 'timepar':
         return timepar_oracle(data['sc']) is not None
     if k == 'bern_tp':
-        return bern_tp_case(**{kk: data[kk] for kk in ('mode', 'u1', 'u2', 'dt2', 'n', 'tabseed')})[0] is not None
+        try: return bern_tp_case(**{kk: data[kk] for kk in ('mode', 'u1', 'u2', 'dt2', 'n', 'tabseed')})[0] is not None
+        except Exception: return True
     if k == 'mono':
         return oracle_bernoulli_mono(data['seed'], data['n'], random.Random(data['seed'])) is not None
     return False
